@@ -263,23 +263,49 @@ def run(E: Engine, rep: Report, tier: str) -> dict:
     rep.floor("FLOW", 1)
 
     # ---------------------------------------------------------------- MAP
+    from .. import sym as _sym
+    from .symutil import S as _S, sh as _sh, mentions as _mentions, unobj as _unobj, has as _has
+
     br = E.fn("pulser.register.mappable_reg.MappableRegister.build_register")
-    ok = False
-    for n in ast.walk(br.node):
-        if isinstance(n, ast.DictComp):
-            g = n.generators[0]
-            if norm(g.iter) in ("self._qubit_ids", "self.qubit_ids") and any("chosen_ids" in norm(c) or "qubits" in norm(c) for c in g.ifs):
-                ok = True
-    rep.check(ok, "MAP", "MappableRegister.build_register|declared-order", "the built register lists the chosen qubits in declared order", "build_register no longer orders the qubits by the declared qubit ids", E.where(br))
-    src = norm(br.node)
-    rep.check("define_register(" in src and "qubit_ids=" in src, "MAP", "MappableRegister.build_register|via-define_register", "traps resolved through layout.define_register (canonical trap ids)", "build_register no longer goes through layout.define_register", E.where(br))
+    dcalls = _S(E, br).calls("define_register")
+    ok_order = ok_via = bool(dcalls)
+    why = "no call of layout.define_register"
+    declared = (_sym.Pattern("self._qubit_ids").term, _sym.Pattern("self.qubit_ids").term)
+    for l in dcalls:
+        c = l.value
+        kws = dict(c[3])
+        ids = kws.get("qubit_ids")
+        traps = c[2][0][1] if len(c[2]) == 1 and c[2][0][0] == "star" else None
+
+        def comp_of(t):
+            t = _unobj(t) if t is not None else None
+            while t is not None and t[0] == "call" and t[1] in (("name", "tuple"), ("name", "list")) and len(t[2]) == 1:
+                t = _unobj(t[2][0])
+            return t if t is not None and t[0] == "comp" and len(t[3]) == 1 else None
+
+        ci, ct = comp_of(ids), comp_of(traps)
+        if ci is None or ct is None:
+            ok_via = False
+            why = f"define_register is called as `{_sh(c, 160)}`: trap ids and qubit_ids are not both selections of the declared ids"
+            continue
+        it_i, it_t = ci[3][0][0], ct[3][0][0]
+        el_i, el_t = ("elem", it_i, 0), ("elem", it_t, 0)
+        if not (it_i in declared and it_t in declared and ci[3][0][1] == ct[3][0][1]):
+            ok_order = False
+            why = f"the selections iterate `{_sh(it_t, 40)}` / `{_sh(it_i, 40)}` (filters `{_sh(ct[3][0][1], 60)}` / `{_sh(ci[3][0][1], 60)}`), not the declared qubit ids with one common filter"
+        if not (ci[2] == el_i and ct[2][0] == "idx" and ct[2][1] == ("name", "qubits") and ct[2][2] == el_t):
+            ok_via = False
+            why = f"qubit_ids element `{_sh(ci[2], 40)}` / trap element `{_sh(ct[2], 40)}`: each chosen id must be paired with qubits[id]"
+    rep.check(ok_order, "MAP", "MappableRegister.build_register|declared-order", "the built register lists the chosen qubits in declared order", f"build_register no longer orders the qubits by the declared qubit ids: {why}", E.where(br))
+    rep.check(ok_via, "MAP", "MappableRegister.build_register|via-define_register", "traps resolved through layout.define_register (canonical trap ids), each id paired with its mapped trap", f"build_register: {why}", E.where(br))
     cq = E.method("pulser.sequence.sequence.Sequence", "_check_qubits_give_ids")
-    rep.check("self._register.qubit_ids[int(index)]" in norm(cq.node), "MAP", "Sequence._check_qubits_give_ids|index-against-declared-order", "index-based targeting resolves against the register's qubit order", "index-based targeting no longer indexes register.qubit_ids", E.where(cq))
+    rq = _S(E, cq).ret
+    hits = [m_ for m_ in (_sym.find_all(rq, _sym.Pattern("self._register.qubit_ids[int(Q_i)]")) if rq is not None else [])]
+    ok_idx = any(m_["Q_i"][0] == "elem" and _unobj(m_["Q_i"][1]) == ("name", "qubits") for m_ in hits)
+    rep.check(ok_idx, "MAP", "Sequence._check_qubits_give_ids|index-against-declared-order", "index-based targeting resolves against the register's qubit order", "index-based targeting no longer indexes register.qubit_ids with each given index", E.where(cq))
+    rep.floor("MAP", 3)
     # trap ids index the canonical coordinate array: every id must be validated on *both* sides before
     # (a negative id wraps around in numpy, so an upper-bound-only test accepts ids that are not trap ids)
-    from .. import sym as _sym
-    from .symutil import S as _S, sh as _sh, mentions as _mentions
-
     dr = E.method("pulser.register.register_layout.RegisterLayout", "define_register")
     rets = [l for l in _S(E, dr).logged("return") if l.value is not None]
     if not rets:
